@@ -255,8 +255,15 @@ func writePacket(t *testing.T) {
 		t.Fatalf("infrastructure: %v", err)
 	}
 	defer gnb.Conn.Close()
+	// Outer Header Creation descriptions that ask for a GTP-U/UDP/IPv4 header: plain, with the N19 / N6 / LL-SSM indications of
+	// octet 6 (flags, not encapsulations), and together with the IPv6 bit
+	descs := []uint16{0x0100, 0x0101, 0x0102, 0x0104, 0x0300}
 	one := func(t vcore.Failer, teid uint32, qfi, l int) {
-		far := &gtp5gnl.FAR{Param: &gtp5gnl.ForwardParam{Creation: &gtp5gnl.HeaderCreation{Desc: 0x0100, TEID: teid, PeerAddr: net.ParseIP(n.IP(10)).To4(), Port: 2152}}}
+		desc := descs[(qfi+1+l)%len(descs)]
+		if desc != 0x0100 {
+			vcore.E.Class("through_WritePacket:description_with_indication_flags_or_ipv6_bit")
+		}
+		far := &gtp5gnl.FAR{Param: &gtp5gnl.ForwardParam{Creation: &gtp5gnl.HeaderCreation{Desc: desc, TEID: teid, PeerAddr: net.ParseIP(n.IP(10)).To4(), Port: 2152}}}
 		var qer *gtp5gnl.QER
 		if qfi >= 0 {
 			qer = &gtp5gnl.QER{QFI: uint8(qfi)}
